@@ -9,8 +9,10 @@
    corpus/C06. The model follows /repo as repaired by the commits d91331e
    (When with a context listed once), bef071d (SetSchema keeps the live clock),
    1b182d7 (ProcessWhenQueue for canceled transitions), 67f008f (dispose closes
-   WhenQuery), 296eb40 (WhenQuery with a context); the refutations of those
-   defects are gone, [repaired_examples] keeps their witnesses.
+   WhenQuery), 296eb40 (WhenQuery with a context), 5683fd8 (two-pass
+   ProcessWhen), 3421fb8 (ProcessStateCtx under the applying lock); the
+   refutations of those defects are gone, [repaired_examples] keeps their
+   witnesses.
    Not proved: whentime_iff (the WhenTime index is covered by the
    correspondence run only). *)
 From Coq Require Import List NArith Bool Arith.
@@ -24,21 +26,19 @@ Import ListNotations.
      coherent a   the activity read by the When / WhenNot calls is the activity
                   told to the manager by processSubscriptions (act_upd)
      told_cond    all states of the binding (in)active on the told activity
-     walked_later a later processed transition marked all states of the
-                  binding at once during ProcessWhen's walk over
-                  activated ++ deactivated (walk_full, hybrid)
      held_later   the condition held at the end of a later processed transition
    For histories of the machine model the event list is SubsTrace.events_of;
    coherence of those event lists is evaluated on every observed trace by the
    correspondence run (kind-1 codes), not proved from Model/Machine.v. *)
 
-(* full characterisation, any number of states: closed <-> the condition held
-   when subscribing or a later walk completed the binding *)
+(* the property for When / WhenNot with any number of states, exactly:
+   closed <-> the condition held when subscribing or at the end of some later
+   processed transition (since the two-pass ProcessWhen, 5683fd8) *)
 Theorem when_iff : forall a0 pre k v neg sts ctx post,
   let es := pre ++ EOp k v (when_op neg sts ctx) :: post in
   forallb plain_ev es = true -> coherent a0 es -> fresh_k k post -> known v sts = true ->
   let a1 := acts a0 pre in
-  closed_of (run init_sst es) k = told_cond neg sts a1 || walked_later neg sts a1 post.
+  closed_of (run init_sst es) k = told_cond neg sts a1 || held_later (told_cond neg sts) a1 post.
 Proof. exact C06Proofs.when_iff_lemma. Qed.
 Print Assumptions when_iff.
 
@@ -63,6 +63,16 @@ Theorem when_no_lost_wakeup : forall a0 pre k v neg sts ctx post,
 Proof. exact C06Proofs.when_no_lost_wakeup_lemma. Qed.
 Print Assumptions when_no_lost_wakeup.
 
+(* ... and never closed while it has not *)
+Theorem when_no_spurious_wakeup : forall a0 pre k v neg sts ctx post,
+  let es := pre ++ EOp k v (when_op neg sts ctx) :: post in
+  forallb plain_ev es = true -> coherent a0 es -> fresh_k k post -> known v sts = true ->
+  let a1 := acts a0 pre in
+  closed_of (run init_sst es) k = true ->
+  told_cond neg sts a1 || held_later (told_cond neg sts) a1 post = true.
+Proof. exact C06Proofs.when_no_spurious_wakeup_lemma. Qed.
+Print Assumptions when_no_spurious_wakeup.
+
 Theorem when_iff_nonvacuous :
   let v := C06Proofs.ex_view [0] [1; 0; 0]%N 2 false in
   let es := C06Proofs.ex_pre ++ EOp 0 v (when_op false [0; 1] None) :: C06Proofs.ex_post in
@@ -70,8 +80,7 @@ Theorem when_iff_nonvacuous :
   known v [0; 1] = true /\
   told_cond false [0; 1] (acts C06Proofs.ex_a0 C06Proofs.ex_pre) = false /\
   held_later (told_cond false [0; 1]) (acts C06Proofs.ex_a0 C06Proofs.ex_pre) C06Proofs.ex_post = false /\
-  walked_later false [0; 1] (acts C06Proofs.ex_a0 C06Proofs.ex_pre) C06Proofs.ex_post = true /\
-  closed_of (run init_sst es) 0 = true.
+  closed_of (run init_sst es) 0 = false.
 Proof. exact C06Proofs.when_iff_nonvacuous_lemma. Qed.
 Print Assumptions when_iff_nonvacuous.
 
@@ -86,28 +95,6 @@ Theorem when_single_nonvacuous :
 Proof. exact C06Proofs.when_single_nonvacuous_lemma. Qed.
 Print Assumptions when_single_nonvacuous.
 
-(* Stated: "a When channel never closes while its condition has not held".
-   False: When [A;B] with A active closes on Set [B]. *)
-Theorem when_spurious_refuted :
-  exists (sc : schema) (calls : list api_call) (c : nat) (sts : list nat),
-    let ops := [C06Proofs.at_call c (OWhen sts None)] in
-    let es := C06Proofs.hist_events sc [] [] calls ops in
-    (forall k v o, In (EOp k v o) es -> cond o v = false) /\
-    (forall v p, In (v, p) (C06Proofs.tx_end_views es) -> cond (OWhen sts None) v = false) /\
-    last (C06Proofs.polls_of ops es) [] = [true].
-Proof. exact C06Proofs.when_spurious_refuted_lemma. Qed.
-Print Assumptions when_spurious_refuted.
-
-(* what remains true: a closed channel means the condition held when
-   subscribing or all states were marked at once during a walk *)
-Theorem when_spurious_partial : forall a0 pre k v neg sts ctx post,
-  let es := pre ++ EOp k v (when_op neg sts ctx) :: post in
-  forallb plain_ev es = true -> coherent a0 es -> fresh_k k post -> known v sts = true ->
-  let a1 := acts a0 pre in
-  closed_of (run init_sst es) k = true ->
-  told_cond neg sts a1 = true \/ walked_later neg sts a1 post = true.
-Proof. exact C06Proofs.when_spurious_partial_lemma. Qed.
-Print Assumptions when_spurious_partial.
 
 
 
@@ -150,7 +137,8 @@ Print Assumptions never_crashed.
 
 (* the histories that witnessed the repaired defects (SetSchema clock copy,
    WhenQueue of a canceled mutation, double gc of a multi-state When with a
-   context, WhenQuery with a context), as served now *)
+   context, WhenQuery with a context, When [A;B] closing on Set [B], a state
+   context made at tx:applied), as served now *)
 Theorem repaired_examples :
   last (C06Proofs.polls_of C06Proofs.w3_ops (C06Proofs.hist_events (C06Proofs.flat_schema 1) [] []
           [C06Proofs.call KAdd [0]; C06Proofs.call KRemove [0]; C06Proofs.call KAdd [0]] C06Proofs.w3_ops)) []
@@ -162,27 +150,24 @@ Theorem repaired_examples :
                  [C06Proofs.call KAdd [2]; C06Proofs.call KAdd [0]] C06Proofs.w5_ops)) []) false = true /\
   (forall (s : sst) (v : view) (f : qfn) (c : nat),
       ss_disposed s = false -> mem c (ss_done s) = false ->
-      snd (do_op s v (OWhenQuery f (Some c))) = RChan (ss_next s)).
+      snd (do_op s v (OWhenQuery f (Some c))) = RChan (ss_next s)) /\
+  last (C06Proofs.polls_of [C06Proofs.at_call 1 (OWhen [0; 1] None)]
+          (C06Proofs.hist_events (C06Proofs.flat_schema 2) [] []
+             [C06Proofs.call KAdd [0]; C06Proofs.call KSet [1]]
+             [C06Proofs.at_call 1 (OWhen [0; 1] None)])) [] = [false] /\
+  last (C06Proofs.polls_of [{| so_pos := PApplied 0; so_op := ONewStateCtx 0 |}]
+          (C06Proofs.hist_events (C06Proofs.flat_schema 1) [] [] [C06Proofs.call KAdd [0]]
+             [{| so_pos := PApplied 0; so_op := ONewStateCtx 0 |}])) [] = [false].
 Proof. exact C06Proofs.repaired_examples_lemma. Qed.
 Print Assumptions repaired_examples.
 
 
-(* Stated: statectx_iff_tick_changed for all schedules. False for a context
-   made between setActiveStates and ProcessStateCtx. *)
-Theorem statectx_window_refuted :
-  exists (sc : schema) (calls : list api_call) (x : nat),
-    let ops := [{| so_pos := PApplied 0; so_op := ONewStateCtx x |}] in
-    let es := C06Proofs.hist_events sc [] [] calls ops in
-    (exists k v, In (EOp k v (ONewStateCtx x)) es /\
-       forall v' p, In (v', p) (C06Proofs.tx_end_views es) ->
-                    tick_of (v_clock v') x = tick_of (v_clock v) x) /\
-    last (C06Proofs.polls_of ops es) [] = [true].
-Proof. exact C06Proofs.statectx_window_refuted_lemma. Qed.
-Print Assumptions statectx_window_refuted.
 
-(* what remains true of statectx_iff_tick_changed, over ALL event lists: a
-   context is canceled by the next ProcessStateCtx that lists its state
-   (fault-free: exactly the transitions that move its tick) ... *)
+(* statectx_iff_tick_changed, as far as proved. Over ALL event lists, for a
+   context made at any position (the tx:applied window is closed since
+   3421fb8: ProcessStateCtx runs under the lock that applied the states): it is
+   canceled by the next ProcessStateCtx that lists its state (fault-free:
+   exactly the transitions that move its tick) ... *)
 Theorem statectx_partial : forall pre k v x post,
   let es := pre ++ EOp k v (ONewStateCtx x) :: post in
   fresh_k k post -> known v [x] = true -> ctx_touched x post = true ->
@@ -190,7 +175,11 @@ Theorem statectx_partial : forall pre k v x post,
 Proof. exact C06Proofs.statectx_partial_lemma. Qed.
 Print Assumptions statectx_partial.
 
-(* ... and ProcessStateCtx cancels nothing but contexts of the listed states *)
+(* ... and ProcessStateCtx cancels nothing but contexts of the listed states.
+   NOT proved at history level: that no other function of the manager closes
+   the identity of a state context (identities of the different indexes are
+   disjoint) - the converse "canceled -> its state was listed or the machine
+   was disposed" is shown by the correspondence run only (codes 2:670, 2:674). *)
 Theorem statectx_only : forall s act deact i,
   is_closed (process_state_ctx s act deact) i = true ->
   is_closed s i = true \/ exists x t, In x (act ++ deact) /\ In (x, (i, t)) (ss_sctx s).
